@@ -236,12 +236,13 @@ def _check_pairs(ctx, s, pairs, a, b, loc):
         "optuna/pruners/_successive_halving.py::_is_trial_promotable_to_next_rung": "rung values come from completed_rung_* system attrs, which are never written for NaN reports",
     }
     idxp = [pp for pp in pairs if pp.kind == "idx" and pp.dual]
+    short_fn = f.short.split("::")[0] + "::" + f.short.split("::")[-1].split(".")[-1]  # the same function as a method of its user class
     if idxp and f.module.name.startswith("optuna.pruners"):
-        ctx.check(f.short in IDX_NAN_FREE, "R13.2", f.short, f"mirrored-index-needs-nan-free-array:{key}",
+        ctx.check(short_fn in IDX_NAN_FREE, "R13.2", f.short, f"mirrored-index-needs-nan-free-array:{key}",
                   message=f"direction site `{key}` takes the first element of a sorted array in one arm and the last in the other (`{norm(idxp[0].node_a)[:40]}` / "
                           f"`{norm(idxp[0].node_b)[:40]}`): reported values may be NaN and NaN sorts last in both directions, so the two arms are not mirror images "
                           f"(use the NaN-aware extrema, or filter NaN first)",
-                  how=IDX_NAN_FREE.get(f.short, "function tabled as working on NaN-free values"), where=loc)
+                  how=IDX_NAN_FREE.get(short_fn, "function tabled as working on NaN-free values"), where=loc)
     # consistency: all pairs must point the same way (arm A all 'lo'-like or all 'hi'-like is NOT
     # required across kinds - cmp depends on operand roles - but fn/sort/alt pairs must agree)
     fam = [pp for pp in pairs if pp.kind in ("fn", "sort", "alt") and pp.dual]
